@@ -118,6 +118,16 @@ func c03OracleStep(i int, op *eng.Op, so eng.StepObs, reqs []sim.Req, prev []eng
 		add("C03:panic", so.Panic)
 		return
 	}
+	// (0') the cluster refused to create a hook object (409: an object of that name is still there - a hook without
+	// before-hook-creation left over from an earlier run): the hook did not run, the operation must not report success
+	if so.Outcome == "ok" && !op.Flags.IsDry() {
+		for _, q := range reqs {
+			if q.Method == "POST" && isHookKeyName(q.Key) && q.Code == 409 {
+				add("C03:hook-creation-refused-yet-success", fmt.Sprintf("the creation of hook %s was refused (409 already exists), the hook never ran, and the %s reports success (%s)", q.Key, op.Kind, statusLine(so.Ledger)))
+				break
+			}
+		}
+	}
 	if op.Kind == "uninstall" || op.Flags.IsDry() {
 		return
 	}
